@@ -29,7 +29,7 @@
 //! Deviations from DESIGN.md: the decisive witness is the tap in the same run (exact, independent of
 //! determinism and of which consumers terminate early); the isolated re-execution is the cross-check.
 //! Spill metrics (`spilled_rows` vs decoded spill files) are NOT checked (optional part, not built).
-//! Known finding (open): `piecewise-merge-join-classic-output-rows` (fix verified). Observation outside the statement
+//! Known findings: none open (`piecewise-merge-join-classic-output-rows` is FIXED in /repo; its case is a plain regression). Observation outside the statement
 //! (observations/): with enable_piecewise_merge_join the physical planner reaches `unreachable!()` for a join ON comparison
 //! one side of which references no column — planner panics are discards here (label `planner-panic`).
 //!
@@ -325,9 +325,8 @@ fn judge(case: &WalkCase) -> Judged {
             continue;
         }
         if m != o.tap_rows {
-            let classic = ["join_type=Inner", "join_type=Left,", "join_type=Right,", "join_type=Full"].iter().any(|t| o.display.contains(t));
-            // known finding: the classic PiecewiseMergeJoin stream never calls record_poll
-            let sig = (o.name == "PiecewiseMergeJoinExec" && classic && m == 0).then(|| "piecewise-merge-join-classic-output-rows".to_string());
+            // (piecewise-merge-join-classic-output-rows is fixed in /repo and no longer recognised)
+            let sig: Option<String> = None;
             findings.push(Finding {
                 sig,
                 msg: format!(
